@@ -380,6 +380,37 @@ def part_valid(ctx, tmp):
     return classify_rows(ctx, rows, items, "valid")
 
 
+ENV_EXPRS = [
+    ("bytes32", "keccak256(msg.data)"), ("bytes32", "sha256(msg.data)"), ("uint256", "len(msg.data)"), ("Bytes[4]", "slice(msg.data, 0, 4)"),
+    ("Bytes[36]", "msg.data"), ("uint256", "block.blobbasefee"), ("uint256", "block.basefee"), ("uint256", "block.prevrandao"),
+    ("uint256", "block.difficulty"), ("bytes32", "blobhash(0)"), ("bytes32", "block.prevhash"), ("bytes32", "blockhash(block.number - 1)"),
+    ("uint256", "tx.gasprice"), ("uint256", "msg.gas"), ("uint256", "msg.mana"), ("uint256", "chain.id"), ("uint256", "self.balance"),
+    ("uint256", "self.codesize"), ("bytes32", "self.codehash"), ("address", "block.coinbase"), ("address", "tx.origin"), ("uint256", "self.tr_"),
+    ("Bytes[32]", "slice(self.code, 0, 32)"), ("uint256", "msg.value"), ("uint256", "block.gaslimit"), ("Bytes[8]", "slice(msg.sender.code, 0, 8)"),
+]
+ENV_TYPES = ["Bytes[INF]", "String[INF]", "DynArray[uint256, INF]", "Bytes[2**256]", "String[2**64]", "DynArray[uint256, 2**200]"]
+
+
+def part_env_matrix(ctx, tmp):
+    """environment variables / builtins / unbounded types x every EVM target x both pipelines (systematic, fixed list)"""
+    items = []
+    for i, (t, e) in enumerate(ENV_EXPRS):
+        pay = "@payable\n" if "msg.value" in e else ""
+        items.append({"id": f"env{i}", "how": "env-matrix", "base": e,
+                      "src": f"tr_: transient(uint256)\n\n@external\n{pay}def f_() -> {t}:\n    return {e}\n" if "tr_" in e else
+                             f"@external\n{pay}def f_() -> {t}:\n    return {e}\n"})
+    for i, t in enumerate(ENV_TYPES):
+        items.append({"id": f"envt{i}", "how": "env-matrix", "base": t, "src": f"@external\ndef f_(x: {t}) -> uint256:\n    return 1\n"})
+        items.append({"id": f"envs{i}", "how": "env-matrix", "base": "storage " + t, "src": f"x_: {t}\n\n@external\ndef f_() -> uint256:\n    return 1\n"})
+    configs = [[v, "gas", e] for v in (False, True) for e in ("london", "paris", "shanghai", "cancun", "prague")]
+    nsh = 3
+    shards = [items[k::nsh] for k in range(nsh)]
+    with ThreadPoolExecutor(max_workers=nsh) as ex:
+        rows = [r for rs in ex.map(lambda k: run_shard(tmp, 20 + k, [{kk: v for kk, v in it.items() if kk in ("id", "src")} for it in shards[k]], 5, configs),
+                                   range(nsh)) for r in rs]
+    return classify_rows(ctx, rows, items, "env")
+
+
 def classify_rows(ctx, rows, items, part):
     by_id = {it["id"]: it for it in items}
     stats = collections.Counter()
@@ -408,7 +439,7 @@ def classify_rows(ctx, rows, items, part):
                 internal.setdefault(key, (it, name, o))
         if r["id"].startswith("base:") and any(o["outcome"] != "output" for o in outs):
             ctx.violation("correspondence-broken", "an unchanged corpus program does not compile", {"program": it["base"], "outcomes": outs})
-        if r["front"]["outcome"] == "output":
+        if r["front"]["outcome"] == "output" and part != "env":   # env: the configurations differ in EVM target, rejections are legitimate
             stats["accepted_by_analysis"] += 1
             runs = r["runs"]
             bad = {k: o for k, o in runs.items() if o["outcome"] == "user"}
@@ -563,6 +594,7 @@ def run(ctx):
     try:
         stats, n_items = part_outcomes(ctx, tmp)
         vstats, n_valid = part_valid(ctx, tmp)
+        estats, n_env = part_env_matrix(ctx, tmp)
         r_arity = probe_arity(ctx)
         from vlib import c20_pow
         n_pow = c20_pow.run(ctx)
@@ -598,7 +630,7 @@ def run(ctx):
     if not b["ok"] and len(ctx.violations) + len(ctx.known_hits) == nv0:
         ctx.violation("theorem-broken", f"{b.get('failed_lemma')} in {b['file']}",
                       {"theorem": b.get("failed_lemma"), "file": b["file"], "coq_output": b["out"][-1500:]})
-    ctx.corr["evaluations"] = int(stats["compilations"]) + int(vstats["compilations"]) + n_dense + 4 + n_pow
+    ctx.corr["evaluations"] = int(stats["compilations"]) + int(vstats["compilations"]) + int(estats["compilations"]) + n_dense + 4 + n_pow
     ctx.corr["distinct_nontrivial"] = n_items + n_valid + n_dense + 4 + n_pow
     ctx.corr["rule"] = "distinct source texts (unchanged + mutated) each compiled by the front end and up to 4 (quick) / 8 back-end configs; dense id sets; 3 targeted probes"
     ctx.extra["explanation"] = (
